@@ -116,15 +116,15 @@ def is_integral(x):
     return bool(np.all(np.abs(x - np.round(x)) == 0)) and float(np.max(np.abs(x), initial=0)) < 2 ** 52
 
 
-def exact_unfolding_ranks(xi):
-    """xi: integer-valued ndarray (object or float).  TT bond ranks 1..N-1 of the exact unfoldings (at least 1)"""
+def exact_unfolding_ranks(xi, floor=1):
+    """xi: integer-valued ndarray (object or float).  TT bond ranks 1..N-1 of the exact unfoldings (at least `floor`)"""
     shape = xi.shape
     out = []
     for k in range(1, len(shape)):
         rows = int(np.prod(shape[:k]))
         M = xi.reshape(rows, -1)
         M = M if M.shape[0] <= M.shape[1] else M.T
-        out.append(max(1, int_rank(M.tolist())))
+        out.append(max(floor, int_rank(M.tolist())))
     return out
 
 
@@ -194,7 +194,8 @@ class Prop:
     TRUSTED = ["NumPy float64 decompression (lib.dense_np) and Frobenius norms as the oracle; exact unfolding ranks by "
                "fraction-free integer elimination over Python ints",
                "harness/props/c04.py (runner + oracle)"]
-    ASSUMPTIONS = ["the bound is checked as err <= eps(1+1e-6)|x| + 1e-13|x| (float64 round-off of the decompression)",
+    ASSUMPTIONS = ["the bound is checked as err <= eps(1+1e-6)|x| + 1e-13|x| + 1e-12 prod_n |core_n||U_n| (float64 round-off "
+                   "relative to the magnitude of the representation: matters only for tensors that vanish by cancellation)",
                    "with a binding rank cap (rmax below an input rank) only the rank clauses are checked (the error then "
                    "belongs to C05)",
                    "the exact-rank clause is checked at eps = 1e-10 (algorithm svd) and eps = 1e-6 (algorithm eig and "
@@ -231,7 +232,7 @@ class Prop:
             tg = dict(op=op, kind=kind, formats=tsig(tj), N=N, eps=str(eps), alg=alg,
                       rmax=("none" if rmax is None else "list" if isinstance(rmax, list) else "int"),
                       rmax_binding=binding, ucond=cond, tiny=is_tiny(eps, alg),
-                      round_rmax_tt_binding=(op in ("round", "tn.round") and rmax is not None and any(rmax < b for b in rt[1:-1])),
+                      round_rmax_tucker_binding=(op in ("round", "tn.round") and rmax is not None and any(rmax < b for b in rk)),
                       eig_delta_below_floor=bool(alg == "eig" and is_tiny(eps, alg) and op in TT_OPS and
                                                  eps * fro(dense_np(ts)) / math.sqrt(max(1, N - 1)) < 1e-4),
                       last_U=tj["modes"][-1]["U"] is not None, first_U=tj["modes"][0]["U"] is not None,
@@ -398,7 +399,7 @@ class Prop:
             rt, rk = ranks_tt_of(first), ranks_tucker_of(first)
             binding = rmax is not None and (any(rmax < b for b in rt[1:-1]) if op.endswith("round_tt") else any(rmax < b for b in rk))
             kept = [min(a, rmax) if rmax is not None else a for a in batch_kept_ranks(first)]
-            rankdef = any(any(a < b for a, b in zip(exact_unfolding_ranks(dense_exact(t)), kept)) for t in tjs)
+            rankdef = any(any(a < b for a, b in zip(exact_unfolding_ranks(dense_exact(t), 0), kept)) for t in tjs)
             tg = dict(op=op, kind="batch", batch=True, formats=tsig(first), N=N, eps="0.1", alg=algs[k % 2], B=B,
                       rmax="none" if rmax is None else "int", rmax_binding=binding,
                       batch_tt_rankdef=bool(rankdef and op.endswith("round_tt")),
@@ -455,8 +456,11 @@ class Prop:
         out = {"shape": list(x.shape), "dense": x.reshape(-1).tolist(), "norm": fro(x)}
         if op == "ctor_dense":
             out["tt_in"] = trivial_tt_ranks(x.shape); out["tucker_in"] = list(x.shape)
+            out["scale"] = out["norm"]
         else:
             out["tt_in"] = ranks_tt_of(ts); out["tucker_in"] = ranks_tucker_of(ts)
+            # magnitude of the representation (>= |x|): round-off of any algorithm working on the cores scales with it
+            out["scale"] = float(np.prod([fro(m["core"]) * (fro(m["U"]) if m["U"] is not None else 1.0) for m in ts["modes"]]))
         out["exact"] = None
         if is_tiny(case["eps"], case["alg"]) and op in TT_OPS and N >= 2:
             out["exact"] = self._exact(dense_exact(ts), x, case["eps"])
@@ -485,7 +489,7 @@ class Prop:
             for idx, v in zip(case["X"], case["y"]):
                 x[tuple(idx)] = v
             out = {"ok": True, "shape": shape, "dense": x.reshape(-1).tolist(), "norm": fro(x),
-                   "tt_in": trivial_tt_ranks(shape), "tucker_in": shape, "exact": None}
+                   "tt_in": trivial_tt_ranks(shape), "tucker_in": shape, "exact": None, "scale": fro(x)}
             if is_tiny(case["eps"], "eig"):
                 out["exact"] = self._exact(x.astype(np.int64).astype(object), x, case["eps"])
             if case["eps"] < 1e-6:      # below the noise of the Gram matrices nothing is promised about the ranks
@@ -536,7 +540,7 @@ class Prop:
         err = fro(y - x)
         bound_eps = 0.0 if batch else eps     # the library's batch rounding does not truncate by eps: unchanged
         if not binding:
-            if err > bound_eps * (1 + RTOL) * nx + (1e-6 if batch else 1e-13) * nx:
+            if err > bound_eps * (1 + RTOL) * nx + (1e-6 * nx if batch else 1e-13 * nx + 1e-12 * exp["scale"]):
                 return False, "relative error %g exceeds eps = %g (|x| = %g)" % (err / nx if nx else err, eps, nx)
         # ---- exact ranks at a tolerance just above noise
         if exp.get("exact") is not None and not binding and not batch:
